@@ -47,7 +47,11 @@ pub(crate) fn rem(
     }
     match divident_n_frac_digits.cmp(&divisor_n_frac_digits) {
         Ordering::Equal => {
-            Ok((divident_coeff % divisor_coeff, divident_n_frac_digits))
+            // wrapping_rem: i128::MIN % -1 is 0, but `%` would panic
+            Ok((
+                divident_coeff.wrapping_rem(divisor_coeff),
+                divident_n_frac_digits,
+            ))
         }
         Ordering::Greater => match checked_mul_pow_ten(
             divisor_coeff,
@@ -67,7 +71,8 @@ pub(crate) fn rem(
                     divisor_n_frac_digits,
                 )),
                 None => {
-                    let mut rem = divident_coeff % divisor_coeff;
+                    // wrapping_rem: i128::MIN % -1 is 0, but `%` would panic
+                    let mut rem = divident_coeff.wrapping_rem(divisor_coeff);
                     while rem != 0 && shift > 0 {
                         match rem.checked_mul(10) {
                             Some(shifted_rem) => {
